@@ -118,9 +118,21 @@ mod node_ptr {
 
 ///////////////////////////////////////////// SkipList /////////////////////////////////////////////
 
+/// The head pointer of a skip list.  It owns every node of the list and is shared between the
+/// list and its iterators, so the nodes are released only when the last of them goes away.
+struct Head<K, V, const MAX_HEIGHT: usize>(AtomicPtr<Node<K, V, MAX_HEIGHT>>);
+
+impl<K, V, const MAX_HEIGHT: usize> std::ops::Deref for Head<K, V, MAX_HEIGHT> {
+    type Target = AtomicPtr<Node<K, V, MAX_HEIGHT>>;
+
+    fn deref(&self) -> &Self::Target {
+        &self.0
+    }
+}
+
 /// A lock-free skip list, generic over keys and values.
 pub struct SkipList<K, V, const MAX_HEIGHT: usize = DEFAULT_MAX_HEIGHT> {
-    head: Arc<AtomicPtr<Node<K, V, MAX_HEIGHT>>>,
+    head: Arc<Head<K, V, MAX_HEIGHT>>,
 }
 
 impl<K: Eq + Ord + Default, V: Default, const MAX_HEIGHT: usize> SkipList<K, V, MAX_HEIGHT> {
@@ -301,14 +313,14 @@ impl<K: Eq + Ord + Default, V: Default, const MAX_HEIGHT: usize> Default
         for idx in 0..MAX_HEIGHT {
             node_ptr::set_next(head, idx, std::ptr::null_mut());
         }
-        let head = Arc::new(AtomicPtr::new(head));
+        let head = Arc::new(Head(AtomicPtr::new(head)));
         Self { head }
     }
 }
 
-impl<K, V, const MAX_HEIGHT: usize> Drop for SkipList<K, V, MAX_HEIGHT> {
+impl<K, V, const MAX_HEIGHT: usize> Drop for Head<K, V, MAX_HEIGHT> {
     fn drop(&mut self) {
-        let mut ptr = self.head.load(Ordering::Acquire);
+        let mut ptr = self.0.load(Ordering::Acquire);
         while !ptr.is_null() {
             let to_drop = ptr;
             ptr = node_ptr::get_next(ptr, 0);
@@ -326,7 +338,7 @@ impl<K, V, const MAX_HEIGHT: usize> Drop for SkipList<K, V, MAX_HEIGHT> {
 /// A SkipList iterator.  Will outlast the skip list it comes from if so chosen.
 #[derive(Clone)]
 pub struct SkipListIterator<K, V, const MAX_HEIGHT: usize = DEFAULT_MAX_HEIGHT> {
-    head: Arc<AtomicPtr<Node<K, V, MAX_HEIGHT>>>,
+    head: Arc<Head<K, V, MAX_HEIGHT>>,
     node: *mut Node<K, V, MAX_HEIGHT>,
 }
 
